@@ -104,14 +104,30 @@ func (r restorer) restore() {
 func (p *pp) handleSpecialValues(
 	value reflect.Value, t reflect.Type, verb rune, depth int,
 ) (handled bool) {
+	if value.Kind() == reflect.Interface && !value.IsNil() {
+		// In an interface-typed slot (an element of a []interface{}, a
+		// map value...) what counts is the value that the slot holds.
+		value = value.Elem()
+		t = value.Type()
+	}
 	switch t {
 	case safeWrapperType:
 		handled = true
+		if value.CanInterface() {
+			// Same treatment as a wrapper given directly as an operand:
+			// the wrapped value is printed with its own methods.
+			p.printArg(value.Interface(), verb)
+			return
+		}
 		defer p.startSafeOverride().restore()
 		p.printValue(value.Field(0), verb, depth+1)
 
 	case unsafeWrapperType:
 		handled = true
+		if value.CanInterface() {
+			p.printArg(value.Interface(), verb)
+			return
+		}
 		defer p.startUnsafeOverride().restore()
 		p.printValue(value.Field(0), verb, depth+1)
 
